@@ -298,6 +298,25 @@ def apply(op, i, j, regs, x):
             for q_, o_, id_ in zip(l_, ow, ids):
                 if q_.units.registry is not o_:
                     return set(), ("constructor-with-registry-rebinds-its-source", f"{q_!r}"[:80])
+        # Unit objects (exported ones, units of another registry) passed as units= together with registry=, with and without
+        # bypass_validation: the Unit object handed in belongs to its owner afterwards
+        uobjs = [("unyt.m", unyt.m), ("unyt.km", unyt.km), ("unit_symbols.g", unyt.unit_symbols.g), ("unyt.pc*unyt.yr", unyt.pc * unyt.yr), ("Unit('kpc', other)", Unit("kpc", registry=other)),
+                 ("unyt.degC", unyt.degC)]
+        for un_, uo in uobjs:
+            owner, fct = uo.registry, facts(uo)
+            for cn, ctor in (("unyt_array(ndarray, unit, registry=)", lambda: unyt_array(np.arange(3.0), uo, registry=r)),
+                             ("unyt_array(ndarray, unit, registry=, bypass_validation=True)", lambda: unyt_array(np.arange(3.0), uo, registry=r, bypass_validation=True)),
+                             ("unyt_quantity(number, unit, registry=, bypass_validation=True)", lambda: unyt_quantity(np.float64(2.0), uo, registry=r, bypass_validation=True)),
+                             ("unyt_array(list, unit, registry=)", lambda: unyt_array([1.0, 2.0], uo, registry=r)), ("unyt_quantity(number, unit, registry=)", lambda: unyt_quantity(2.0, uo, registry=r))):
+                try:
+                    made = ctor()
+                except Exception:
+                    made = None
+                if uo.registry is not owner or facts(uo) != fct:
+                    uo.registry = owner  # put it back so that the run can go on; the violation is reported
+                    return set(), (f"constructor-with-registry-rebinds-the-unit-object-it-was-given:{cn}", f"{un_}")
+                if made is not None and made.units.registry is not r and getattr(made.units.registry, "lut", None) is not r.lut:
+                    return set(), (f"constructor-with-registry-ignores-it:{cn}", f"{un_}")
         acted = set()
     elif op == "default_modify":
         try:
